@@ -236,9 +236,11 @@ def r10_5(ctx):
         # combinator form: a forward first-match search (find / find_map / position) over the members in storage order, the
         # single comparison in its closure; any reversing / last-match / reordering adaptor on the way is rejected
         FWD = {"iter", "into_iter", "map", "find", "find_map", "position", "copied", "cloned", "by_ref"}
-        its = [(b, t) for b, t in f.calls() if "::Iterator::" in t["callee"] or "::DoubleEndedIterator::" in t["callee"] or "IntoIterator" in t["callee"] or callee_is(t, "iter")]
-        search = [t for b, t in its if t["callee"].rsplit("::", 1)[-1] in ("find", "find_map", "position") and "DoubleEnded" not in t["callee"]]
-        other = sorted({t["callee"].rsplit("::", 1)[-1] for b, t in its} - FWD | {t["callee"] for b, t in its if "DoubleEnded" in t["callee"]})
+        is_it = lambda t: any(x in (t.get("trait") or "") or x in t["callee"] for x in ("iterator::Iterator", "::Iterator::", "DoubleEndedIterator", "IntoIterator")) or callee_is(t, "iter")
+        rev = lambda t: "DoubleEnded" in t["callee"] or "DoubleEnded" in (t.get("trait") or "") or "::Rev<" in t["callee"]
+        its = [(b, t) for b, t in f.calls() if is_it(t)]
+        search = [t for b, t in its if t["callee"].rsplit("::", 1)[-1] in ("find", "find_map", "position") and not rev(t)]
+        other = sorted({t["callee"].rsplit("::", 1)[-1] for b, t in its} - FWD | {t["callee"] for b, t in its if rev(t)})
         ceqs = [(g, t) for g in prog.closures_of(f) for b, t in g.calls() if callee_is(t, "eq")]
         ok = len(search) == 1 and not other and len(ceqs) == 1
         msg = f"forward search {[t['callee'].rsplit('::', 1)[-1] for t in search]} with {len(ceqs)} comparison(s) in its closure" + (f"; adaptors that change the order or the winner: {other}" if other else "")
